@@ -394,6 +394,9 @@ def use(case):
 
 def big_cases(seed, thorough=False):
     """a few meshes well above the sizes of the random families (size-dependent code paths: > 256, > 2^15 elements ... )"""
+    import os
+    if os.environ.get("VERIF_ESCALATED") == "1":
+        thorough = False            # quick tier escalated by source drift: thorough streams, but not the very large meshes
     rng = rng_for(seed, "big")
     out = []
     fams = [("icosphere3", icosphere(3)), ("torus24x20", torus(24, 20)), ("grid20x15-lifted", (lift(rng, grid(20, 15)[0]), grid(20, 15)[1]))]
